@@ -57,7 +57,10 @@ func (s *Service) proxyToSingleEndpoint(ctx context.Context, w http.ResponseWrit
 	cb := s.GetCircuitBreaker(endpointKey(endpoint))
 	if cb != nil && cb.IsOpen() {
 		rlog.Warn("Circuit breaker is open for endpoint", "endpoint", endpoint.Name)
-		s.RecordFailure(ctx, endpoint, time.Since(stats.StartTime), fmt.Errorf("circuit breaker open"))
+		// Skipping an endpoint is not an attempt: nothing was sent to it, and the retry handler
+		// moves on to the next candidate. It is not recorded as a failed request of the endpoint
+		// (which would charge an endpoint nobody contacted, and count a request that is answered
+		// by another candidate as both failed and successful).
 		return fmt.Errorf("circuit breaker open for endpoint %s: %w", endpoint.Name, core.ErrCircuitOpen)
 	}
 
